@@ -554,12 +554,19 @@ def summaryEmits (s : Sys) : List Emit :=
 /-- every `taglink` call and every listing entry the page code makes -/
 def requests (s : Sys) : List Emit := (pages s).flatMap (pageEmits s) ++ summaryEmits s
 
+/-- rows that write a listing element of their own (`<tr>`, `<li>`, member `<div>`, all-documents entry)
+around the label `taglink` returns -/
+def Row.isEntry : Row → Bool
+  | .table | .initTable | .baseTable | .detail | .sidebarItem | .sidebarInherited | .modIndexRoot | .modIndex
+  | .classIndex | .nameIndex | .undoc | .indexRoots | .allDocs => true
+  | _ => false
+
 /-- the visibility guard inside `linker.taglink` (since "fix: taglink renders plain text instead of a link
-when the target is hidden"): `return tags.transparent(label)`. The plain label of a link is not a mention;
-the root rows of moduleIndex.html and index.html are still written as rows, with the name as text. -/
+when the target is hidden"): `return tags.transparent(label)`. A listing element is written all the same,
+with the label as text; the plain label of an inline link is not a mention. -/
 def taglinkGuard (s : Sys) (e : Emit) : Option Emit :=
   if visible s e.target then some e
-  else if e.row = .modIndexRoot || e.row = .indexRoots then some { e with linked := false }
+  else if e.row.isEntry then some { e with linked := false }
   else none
 
 /-- every hyperlink / listing entry of the run -/
